@@ -151,6 +151,8 @@ package gocql
 //@   props C03 C18
 //@   ensures result != nil && result.proto == version&0x7f && (version&0x7f > 2 ==> result.headSize == 9) && (version&0x7f <= 2 ==> result.headSize == 8)
 //@   ensures (result.flags&0x01 != 0) == (compressor != nil) && result.compres == compressor && len(result.buf) == 0 && result.header == nil
+// frame flags of a new framer: compression (0x01) with a compressor, use-beta (0x10) for v5, nothing else
+//@   ensures[C03] result.flags&0xee == 0 && (result.flags&0x10 != 0) == (version == 5)
 
 //@ func (f *framer) writeHeader
 //@   props C03 C18
@@ -180,6 +182,7 @@ package gocql
 //@   ensures[C18] Encode_calls == ite(old(len(f.buf)) <= 256*1024*1024 && old(f.buf[1])&0x01 != 0, 1, 0)
 //@   ensures result == nil ==> len(f.buf) >= f.headSize && int(int32(be32(f.buf, f.headSize-4))) == len(f.buf) - f.headSize
 //@   ensures result == nil ==> all(k, 0, 4, f.buf[k] == old(f.buf[k]))
+//@   ensures result == nil && f.proto > 2 ==> f.buf[4] == old(f.buf[4])
 //@   ensures result == nil && old(f.buf[1])&0x01 == 0 ==> len(f.buf) == old(len(f.buf)) && forall(k, f.headSize <= k && k < len(f.buf), f.buf[k] == old(f.buf[k]))
 
 // Primitive writers for the notations of the spec (section 3): each appends exactly the encoding of its
@@ -231,21 +234,20 @@ package gocql
 //@   ensures grows(f, 2 + len(s)) && int(be16(f.buf, old(len(f.buf)))) == len(s)
 //@   ensures forall(k, 0 <= k && k < len(s), f.buf[old(len(f.buf)) + 2 + k] == s[k])
 
-// [long string]: an [int] n followed by n bytes
+// [long string]: an [int] n followed by n bytes. (A text of 2 GiB or more has no encoding; it makes the frame
+// larger than the 256 MiB finish accepts, so such a frame is never sent.)
 //@ func (f *framer) writeLongString
 //@   props C03
-//@   requires len(s) <= 1<<31 - 1
 //@   modifies f.buf
-//@   ensures grows(f, 4 + len(s)) && int(int32(be32(f.buf, old(len(f.buf))))) == len(s)
+//@   ensures grows(f, 4 + len(s)) && (len(s) <= 1<<31 - 1 ==> int(int32(be32(f.buf, old(len(f.buf))))) == len(s))
 //@   ensures forall(k, 0 <= k && k < len(s), f.buf[old(len(f.buf)) + 4 + k] == s[k])
 
 // [bytes]: an [int] n followed by n bytes; null is n = -1 with nothing following
 //@ func (f *framer) writeBytes
 //@   props C03
-//@   requires len(p) <= 1<<31 - 1
 //@   modifies f.buf
 //@   ensures p == nil ==> grows(f, 4) && be32(f.buf, old(len(f.buf))) == 0xffffffff
-//@   ensures p != nil ==> grows(f, 4 + len(p)) && int(int32(be32(f.buf, old(len(f.buf))))) == len(p)
+//@   ensures p != nil ==> grows(f, 4 + len(p)) && (len(p) <= 1<<31 - 1 ==> int(int32(be32(f.buf, old(len(f.buf))))) == len(p))
 //@   ensures p != nil ==> forall(k, 0 <= k && k < len(p), f.buf[old(len(f.buf)) + 4 + k] == p[k])
 
 // "unset" (v4+): the [int] -2 with nothing following
@@ -274,8 +276,8 @@ package gocql
 // append (each proved above to append exactly its encoding), so the layout is the order and the arguments of
 // those calls: every `before` clause says what has been written so far and what is written now, the `at_return`
 // clauses that each announced field was written exactly once.
-//@ predicate qvals_ok(o): len(o.values) <= 65535 && forall(j, 0 <= j && j < len(o.values), len(o.values[j].name) <= 65535 && len(o.values[j].value) <= 1<<31 - 1)
-//@ predicate qparams_ok(o): qvals_ok(o) && len(o.keyspace) <= 65535 && len(o.pagingState) <= 1<<31 - 1 && o.pageSize <= 1<<31 - 1
+//@ predicate qvals_ok(o): len(o.values) <= 65535 && forall(j, 0 <= j && j < len(o.values), len(o.values[j].name) <= 65535)
+//@ predicate qparams_ok(o): qvals_ok(o) && len(o.keyspace) <= 65535 && o.pageSize <= 1<<31 - 1
 //@ func (f *framer) writeQueryParams
 //@   props C03
 //@   count_calls writeConsistency writeByte writeUint writeShort writeString writeUnset writeBytes writeInt writeLong
@@ -353,7 +355,7 @@ package gocql
 //@ func (f *framer) writeBytesMap
 //@   props C03
 //@   count_calls writeShort writeString writeBytes
-//@   requires len(m) <= 65535 && forall(string(s), haskey(m, s) ==> len(s) <= 65535 && len(m[s]) <= 1<<31 - 1)
+//@   requires len(m) <= 65535 && forall(string(s), haskey(m, s) ==> len(s) <= 65535)
 //@   modifies f.buf
 //@   before[C03] writeShort: writeShort_calls == 1 && writeString_calls + writeBytes_calls == 0 && int(arg1) == len(m)
 //@   before[C03] writeString: in_loop == 0 && writeShort_calls == 1 && haskey(m, k) && writeString_calls == itercount && writeBytes_calls == itercount - 1 && arg1 == k
@@ -364,20 +366,206 @@ package gocql
 //@   loop 0: invariant writeShort_calls == 1 && writeString_calls == itercount && writeBytes_calls == itercount && itercount <= len(m)
 //@   loop 0: invariant len(f.buf) >= old(len(f.buf)) + 2 && forall(k, 0 <= k && k < old(len(f.buf)), f.buf[k] == old(f.buf[k])) && be16(f.buf, old(len(f.buf))) == uint16(len(m))
 
-// STARTUP and OPTIONS are never compressed (spec §5): their header is written with the compression bit cleared.
+// ---------------------------------------------------------------------------
+// Request frames (C03). A framer is well formed when its version is one of 1..5 with the header size of
+// that version and a compressor behind the compression flag (newFramer establishes this for the
+// connection's version). Every builder: header = version, flags, the request's stream id in the
+// version's width, the opcode of the spec (section 2.4), and - after finish - a length equal to the
+// number of bytes that follow; the body = the fields of the message in the order of the spec, again as
+// the order and arguments of the writes (each writer proved above to append exactly its encoding).
+// ---------------------------------------------------------------------------
+//@ predicate framer_ok(f): f != nil && 1 <= f.proto && f.proto <= 5 && (f.proto > 2 ==> f.headSize == 9) && (f.proto <= 2 ==> f.headSize == 8) && (f.flags&0x01 != 0 ==> f.compres != nil)
+//@ predicate stream_ok(f, s): 0 <= s && s < 32768 && (f.proto <= 2 ==> s < 128)
+//@ predicate payload_ok(m): len(m) <= 65535 && forall(string(s), haskey(m, s) ==> len(s) <= 65535)
+// the first bytes of the buffer are the header of a request with this opcode on this stream
+//@ predicate header_is(f, op, s): len(f.buf) >= f.headSize && f.buf[0] == f.proto && (f.proto > 2 ==> int(int16(be16(f.buf, 2))) == s && f.buf[4] == op) && (f.proto <= 2 ==> int(int8(f.buf[2])) == s && f.buf[3] == op)
+//@ predicate length_is(f): int(int32(be32(f.buf, f.headSize-4))) == len(f.buf) - f.headSize
+
+//@ func (f *framer) payload
+//@   props C03
+//@   modifies f.flags
+//@   ensures f.flags == old(f.flags) | 0x04
+
+//@ func (f *framer) trace
+//@   props C03
+//@   modifies f.flags
+//@   ensures f.flags == old(f.flags) | 0x02
+
+// the custom payload (v4+) is a [bytes map] right after the header, present exactly when the map is not empty
+//@ func (f *framer) writeCustomPayload
+//@   props C03
+//@   count_calls writeBytesMap
+//@   requires customPayload != nil && payload_ok(*customPayload) && (len(*customPayload) > 0 ==> f.proto >= 4)
+//@   modifies f.buf
+//@   before[C03] writeBytesMap: arg1 == *customPayload && len(*customPayload) > 0 && writeBytesMap_calls == 1
+//@   at_return[C03] writeBytesMap_calls == ite(len(*customPayload) > 0, 1, 0)
+//@   ensures len(f.buf) >= old(len(f.buf)) && forall(k, 0 <= k && k < old(len(f.buf)), f.buf[k] == old(f.buf[k]))
+
+// STARTUP (opcode 0x01): a [string map] of options. STARTUP and OPTIONS are never compressed (spec section 5):
+// their header is written with the compression bit cleared.
 //@ func (w *writeStartupFrame) buildFrame
 //@   props C03 C18
-//@   count_calls Encode
-//@   requires f != nil && ((f.proto > 2 ==> f.headSize == 9) && (f.proto <= 2 ==> f.headSize == 8))
+//@   count_calls Encode writeHeader writeStringMap finish
+//@   requires framer_ok(f) && stream_ok(f, streamID) && len(w.opts) <= 65535 && forall(string(s), haskey(w.opts, s) ==> len(s) <= 65535 && len(w.opts[s]) <= 65535)
+//@   before[C03] writeHeader: writeHeader_calls == 1 && arg1 == f.flags&0xfe && arg2 == 0x01 && arg3 == streamID && writeStringMap_calls == 0
+//@   before[C03] writeStringMap: writeStringMap_calls == 1 && writeHeader_calls == 1 && arg1 == w.opts && finish_calls == 0
+//@   before[C03] finish: writeStringMap_calls == 1 && finish_calls == 1
+//@   running writeHeader_calls == 1 && finish_calls == 0 ==> header_is(f, byte(0x01), streamID) && f.buf[1] == f.flags&0xfe
+//@   ensures[C03] result == nil ==> header_is(f, byte(0x01), streamID) && length_is(f) && f.buf[1] == f.flags&0xfe
 //@   ensures result == nil ==> f.buf[1]&0x01 == 0 && len(f.buf) >= f.headSize
 //@   ensures[C18] Encode_calls == 0
 
+// OPTIONS (0x05): empty body
 //@ func (f *framer) writeOptionsFrame
 //@   props C03 C18
-//@   count_calls Encode
+//@   count_calls Encode writeHeader finish
+//@   requires framer_ok(f) && stream_ok(f, stream)
+//@   before[C03] writeHeader: writeHeader_calls == 1 && arg1 == f.flags&0xfe && arg2 == 0x05 && arg3 == stream
 //@   ensures[C18] Encode_calls == 0
-//@   requires ((f.proto > 2 ==> f.headSize == 9) && (f.proto <= 2 ==> f.headSize == 8))
+//@   ensures[C03] result == nil ==> header_is(f, byte(0x05), stream) && length_is(f) && len(f.buf) == f.headSize && f.buf[1] == f.flags&0xfe
 //@   ensures result == nil ==> f.buf[1]&0x01 == 0 && len(f.buf) == f.headSize
+
+//@ func (w *writeOptionsFrame) buildFrame
+//@   props C03
+//@   requires framer_ok(framer) && stream_ok(framer, streamID)
+//@   ensures result == nil ==> header_is(framer, byte(0x05), streamID) && length_is(framer) && len(framer.buf) == framer.headSize
+
+// PREPARE (0x09): [long string] statement; v5: [int] flags (0x01: a keyspace follows) and the [string] keyspace
+//@ func (w *writePrepareFrame) buildFrame
+//@   props C03
+//@   count_calls payload writeHeader writeCustomPayload writeLongString writeUint writeString finish
+//@   requires framer_ok(f) && stream_ok(f, streamID) && len(w.keyspace) <= 65535 && payload_ok(w.customPayload)
+//@   requires (len(w.customPayload) > 0 ==> f.proto >= 4) && (f.proto <= 4 ==> w.keyspace == "")
+//@   before[C03] writeHeader: writeHeader_calls == 1 && arg1 == f.flags && arg1 == old(f.flags) | ite(len(w.customPayload) > 0, 0x04, 0) && arg2 == 0x09 && arg3 == streamID
+//@   before[C03] writeCustomPayload: writeHeader_calls == 1 && writeCustomPayload_calls == 1 && writeLongString_calls == 0
+//@   before[C03] writeLongString: writeCustomPayload_calls == 1 && writeLongString_calls == 1 && arg1 == w.statement && writeUint_calls + writeString_calls == 0
+//@   before[C03] writeUint: f.proto >= 5 && writeLongString_calls == 1 && writeUint_calls == 1 && writeString_calls == 0 && arg1 == ite(w.keyspace != "", 1, 0)
+//@   before[C03] writeString: f.proto >= 5 && writeUint_calls == 1 && writeString_calls == 1 && w.keyspace != "" && arg1 == w.keyspace && finish_calls == 0
+//@   before[C03] finish: writeLongString_calls == 1 && writeUint_calls == ite(f.proto >= 5, 1, 0) && writeString_calls == ite(w.keyspace != "", 1, 0) && finish_calls == 1
+//@   running writeHeader_calls == 1 && finish_calls == 0 ==> header_is(f, byte(0x09), streamID) && f.buf[1] == f.flags
+//@   ensures[C03] result == nil ==> header_is(f, byte(0x09), streamID) && length_is(f) && f.buf[1] == f.flags && (f.flags&0x04 != 0) == (old(f.flags)&0x04 != 0 || len(w.customPayload) > 0)
+
+// AUTH_RESPONSE (0x0F): [bytes] token
+//@ func (f *framer) writeAuthResponseFrame
+//@   props C03
+//@   count_calls writeHeader writeBytes finish
+//@   requires framer_ok(f) && stream_ok(f, streamID)
+//@   before[C03] writeHeader: writeHeader_calls == 1 && arg1 == f.flags && arg2 == 0x0f && arg3 == streamID && writeBytes_calls == 0
+//@   before[C03] writeBytes: writeHeader_calls == 1 && writeBytes_calls == 1 && same(arg1, data) && finish_calls == 0
+//@   before[C03] finish: writeBytes_calls == 1 && finish_calls == 1
+//@   running writeHeader_calls == 1 && finish_calls == 0 ==> header_is(f, byte(0x0f), streamID) && f.buf[1] == f.flags
+//@   ensures[C03] result == nil ==> header_is(f, byte(0x0f), streamID) && length_is(f) && f.buf[1] == f.flags
+
+//@ func (a *writeAuthResponseFrame) buildFrame
+//@   props C03
+//@   requires framer_ok(framer) && stream_ok(framer, streamID)
+//@   ensures result == nil ==> header_is(framer, byte(0x0f), streamID) && length_is(framer)
+
+// REGISTER (0x0B): [string list] of event types
+//@ func (f *framer) writeRegisterFrame
+//@   props C03
+//@   count_calls writeHeader writeStringList finish
+//@   requires framer_ok(f) && stream_ok(f, streamID) && w != nil && len(w.events) <= 65535 && forall(j, 0 <= j && j < len(w.events), len(w.events[j]) <= 65535)
+//@   before[C03] writeHeader: writeHeader_calls == 1 && arg1 == f.flags && arg2 == 0x0b && arg3 == streamID && writeStringList_calls == 0
+//@   before[C03] writeStringList: writeHeader_calls == 1 && writeStringList_calls == 1 && same(arg1, w.events) && finish_calls == 0
+//@   before[C03] finish: writeStringList_calls == 1 && finish_calls == 1
+//@   running writeHeader_calls == 1 && finish_calls == 0 ==> header_is(f, byte(0x0b), streamID) && f.buf[1] == f.flags
+//@   ensures[C03] result == nil ==> header_is(f, byte(0x0b), streamID) && length_is(f) && f.buf[1] == f.flags
+
+//@ func (w *writeRegisterFrame) buildFrame
+//@   props C03
+//@   requires framer_ok(framer) && stream_ok(framer, streamID) && len(w.events) <= 65535 && forall(j, 0 <= j && j < len(w.events), len(w.events[j]) <= 65535)
+//@   ensures result == nil ==> header_is(framer, byte(0x0b), streamID) && length_is(framer)
+
+// QUERY (0x07): [long string] statement, <query_parameters>
+//@ func (f *framer) writeQueryFrame
+//@   props C03
+//@   count_calls payload writeHeader writeCustomPayload writeLongString writeQueryParams finish
+//@   requires framer_ok(f) && stream_ok(f, streamID) && payload_ok(customPayload) && params != nil && qparams_ok(params)
+//@   requires (len(customPayload) > 0 ==> f.proto >= 4) && (f.proto <= 4 ==> params.keyspace == "")
+//@   before[C03] writeHeader: writeHeader_calls == 1 && arg1 == f.flags && arg1 == old(f.flags) | ite(len(customPayload) > 0, 0x04, 0) && arg2 == 0x07 && arg3 == streamID
+//@   before[C03] writeCustomPayload: writeHeader_calls == 1 && writeCustomPayload_calls == 1 && writeLongString_calls == 0
+//@   before[C03] writeLongString: writeCustomPayload_calls == 1 && writeLongString_calls == 1 && arg1 == statement && writeQueryParams_calls == 0
+//@   before[C03] writeQueryParams: writeLongString_calls == 1 && writeQueryParams_calls == 1 && arg1 == params && finish_calls == 0
+//@   before[C03] finish: writeQueryParams_calls == 1 && finish_calls == 1
+//@   running writeHeader_calls == 1 && finish_calls == 0 ==> header_is(f, byte(0x07), streamID) && f.buf[1] == f.flags
+//@   ensures[C03] result == nil ==> header_is(f, byte(0x07), streamID) && length_is(f) && f.buf[1] == f.flags && (f.flags&0x04 != 0) == (old(f.flags)&0x04 != 0 || len(customPayload) > 0)
+
+//@ func (w *writeQueryFrame) buildFrame
+//@   props C03
+//@   requires framer_ok(framer) && stream_ok(framer, streamID) && payload_ok(w.customPayload) && qparams_ok(w.params)
+//@   requires (len(w.customPayload) > 0 ==> framer.proto >= 4) && (framer.proto <= 4 ==> w.params.keyspace == "")
+//@   ensures result == nil ==> header_is(framer, byte(0x07), streamID) && length_is(framer)
+
+// EXECUTE (0x0A): [short bytes] id, <query_parameters>; v1: [short bytes] id, [short] n, n [bytes] values, [consistency]
+//@ func (f *framer) writeExecuteFrame
+//@   props C03
+//@   count_calls payload writeHeader writeCustomPayload writeShortBytes writeQueryParams writeShort writeUnset writeBytes writeConsistency finish
+//@   requires framer_ok(f) && stream_ok(f, streamID) && len(preparedID) <= 65535 && customPayload != nil && payload_ok(*customPayload) && params != nil && qparams_ok(params)
+//@   requires (len(*customPayload) > 0 ==> f.proto >= 4) && (f.proto <= 4 ==> params.keyspace == "")
+//@   before[C03] writeHeader: writeHeader_calls == 1 && arg1 == f.flags && arg1 == old(f.flags) | ite(len(*customPayload) > 0, 0x04, 0) && arg2 == 0x0a && arg3 == streamID
+//@   before[C03] writeCustomPayload: writeHeader_calls == 1 && writeCustomPayload_calls == 1 && arg1 == customPayload && writeShortBytes_calls == 0
+//@   before[C03] writeShortBytes: writeCustomPayload_calls == 1 && writeShortBytes_calls == 1 && same(arg1, preparedID) && writeQueryParams_calls + writeShort_calls == 0
+//@   before[C03] writeQueryParams: f.proto > 1 && writeShortBytes_calls == 1 && writeQueryParams_calls == 1 && arg1 == params && finish_calls == 0
+//@   before[C03] writeShort: f.proto == 1 && writeShortBytes_calls == 1 && writeShort_calls == 1 && int(arg1) == len(params.values) && writeBytes_calls + writeUnset_calls + writeConsistency_calls == 0
+//@   before[C03] writeUnset: in_loop == 0 && f.proto == 1 && params.values[i].isUnset && writeBytes_calls + writeUnset_calls == i + 1 && writeConsistency_calls == 0
+//@   before[C03] writeBytes: in_loop == 0 && f.proto == 1 && !params.values[i].isUnset && same(arg1, params.values[i].value) && writeBytes_calls + writeUnset_calls == i + 1 && writeConsistency_calls == 0
+//@   before[C03] writeConsistency: f.proto == 1 && writeShort_calls == 1 && writeBytes_calls + writeUnset_calls == len(params.values) && arg1 == params.consistency && writeConsistency_calls == 1 && finish_calls == 0
+//@   before[C03] finish: finish_calls == 1 && writeShortBytes_calls == 1 && ((f.proto > 1 && writeQueryParams_calls == 1) || (f.proto == 1 && writeConsistency_calls == 1))
+//@   running writeHeader_calls == 1 && finish_calls == 0 ==> header_is(f, byte(0x0a), streamID) && f.buf[1] == f.flags
+//@   ensures[C03] result == nil ==> header_is(f, byte(0x0a), streamID) && length_is(f) && f.buf[1] == f.flags && (f.flags&0x04 != 0) == (old(f.flags)&0x04 != 0 || len(*customPayload) > 0)
+//@   loop 0: invariant 0 <= i && i <= n && n == len(params.values) && f.proto == 1 && writeBytes_calls + writeUnset_calls == i && writeShort_calls == 1 && writeConsistency_calls == 0 && writeHeader_calls == 1 && finish_calls == 0 && writeShortBytes_calls == 1 && writeQueryParams_calls == 0
+//@   loop 0: invariant header_is(f, byte(0x0a), streamID) && f.buf[1] == f.flags
+
+//@ func (e *writeExecuteFrame) buildFrame
+//@   props C03
+//@   requires framer_ok(fr) && stream_ok(fr, streamID) && len(e.preparedID) <= 65535 && payload_ok(e.customPayload) && qparams_ok(e.params)
+//@   requires (len(e.customPayload) > 0 ==> fr.proto >= 4) && (fr.proto <= 4 ==> e.params.keyspace == "")
+//@   ensures result == nil ==> header_is(fr, byte(0x0a), streamID) && length_is(fr)
+
+// BATCH (0x0D): [byte] type, [short] n, n queries (<kind><string or id><n><value_1>...), [consistency];
+// v3+: flags ([byte], v5: [int]; 0x10 serial consistency, 0x20 timestamp) and the fields they announce.
+// Named values in a batch are refused (CASSANDRA-10246) before anything is sent.
+//@ predicate bstmt_ok(b): len(b.preparedID) <= 65535 && len(b.values) <= 65535
+//@ predicate batch_ok(w): len(w.statements) <= 65535 && forall(i, 0 <= i && i < len(w.statements), bstmt_ok(w.statements[i]))
+//@ func (f *framer) writeBatchFrame
+//@   props C03
+//@   count_calls payload writeHeader writeCustomPayload writeByte writeShort writeLongString writeShortBytes writeString writeUnset writeBytes writeConsistency writeUint writeLong finish
+//@   abstract_quo int64
+//@   requires framer_ok(f) && stream_ok(f, streamID) && w != nil && batch_ok(w) && payload_ok(customPayload) && (len(customPayload) > 0 ==> f.proto >= 4)
+//@   before[C03] writeHeader: writeHeader_calls == 1 && arg1 == f.flags && arg1 == old(f.flags) | ite(len(customPayload) > 0, 0x04, 0) && arg2 == 0x0d && arg3 == streamID
+//@   before[C03] writeCustomPayload: writeHeader_calls == 1 && writeCustomPayload_calls == 1 && writeByte_calls == 0
+//@   before[C03] writeByte: in_loop == -1 ==> (writeConsistency_calls == 0 && writeCustomPayload_calls == 1 && writeByte_calls == 1 && arg1 == byte(w.typ) && writeShort_calls == 0) || (writeConsistency_calls == 1 && f.proto >= 3 && f.proto <= 4 && writeByte_calls == len(w.statements) + 2 && (arg1&0x10 != 0) == (w.serialConsistency > 0) && (arg1&0x20 != 0) == w.defaultTimestamp && arg1&0xcf == 0 && writeLong_calls == 0)
+//@   before[C03] writeShort: in_loop == -1 ==> writeByte_calls == 1 && writeShort_calls == 1 && int(arg1) == len(w.statements)
+// query i: kind 0 with the statement text or kind 1 with the prepared id, then the number of values and the values
+//@   before[C03] writeByte: in_loop == 0 ==> writeByte_calls == i + 2 && writeShort_calls == i + 1 && writeLongString_calls + writeShortBytes_calls == i && (arg1 == 0) == (len(w.statements[i].preparedID) == 0) && arg1 <= 1
+//@   before[C03] writeLongString: in_loop == 0 && len(w.statements[i].preparedID) == 0 && arg1 == w.statements[i].statement && writeByte_calls == i + 2 && writeShort_calls == i + 1 && writeLongString_calls + writeShortBytes_calls == i + 1
+//@   before[C03] writeShortBytes: in_loop == 0 && len(w.statements[i].preparedID) > 0 && same(arg1, w.statements[i].preparedID) && writeByte_calls == i + 2 && writeShort_calls == i + 1 && writeLongString_calls + writeShortBytes_calls == i + 1
+//@   before[C03] writeShort: in_loop == 0 ==> writeShort_calls == i + 2 && writeByte_calls == i + 2 && writeLongString_calls + writeShortBytes_calls == i + 1 && int(arg1) == len(w.statements[i].values)
+//@   before[C03] writeUnset: in_loop == 1 && w.statements[i].values[rangeindex+1].isUnset && writeShort_calls == i + 2 && writeByte_calls == i + 2 && writeConsistency_calls == 0
+//@   before[C03] writeBytes: in_loop == 1 && !w.statements[i].values[rangeindex+1].isUnset && same(arg1, w.statements[i].values[rangeindex+1].value) && writeShort_calls == i + 2 && writeByte_calls == i + 2 && writeConsistency_calls == 0
+//@   before[C03] writeString: false
+// after the queries
+//@   before[C03] writeConsistency: in_loop == -1 && writeShort_calls == len(w.statements) + 1 && ((writeConsistency_calls == 1 && arg1 == w.consistency && writeUint_calls == 0 && writeByte_calls == len(w.statements) + 1) || (writeConsistency_calls == 2 && f.proto >= 3 && w.serialConsistency > 0 && arg1 == Consistency(w.serialConsistency) && writeByte_calls + writeUint_calls == len(w.statements) + 2 && writeLong_calls == 0))
+//@   before[C03] writeUint: f.proto >= 5 && writeConsistency_calls == 1 && writeUint_calls == 1 && (arg1&0x10 != 0) == (w.serialConsistency > 0) && (arg1&0x20 != 0) == w.defaultTimestamp && arg1&0xffffffcf == 0 && writeLong_calls == 0
+//@   before[C03] writeLong: f.proto >= 3 && w.defaultTimestamp && writeLong_calls == 1 && (w.defaultTimestampValue != 0 ==> arg1 == w.defaultTimestampValue) && writeConsistency_calls == ite(w.serialConsistency > 0, 2, 1) && finish_calls == 0
+//@   before[C03] finish: finish_calls == 1 && writeShort_calls == len(w.statements) + 1 && writeLongString_calls + writeShortBytes_calls == len(w.statements) && writeConsistency_calls == ite(f.proto >= 3 && w.serialConsistency > 0, 2, 1) && writeLong_calls == ite(f.proto >= 3 && w.defaultTimestamp, 1, 0)
+//@   before[C03] finish: writeUint_calls == ite(f.proto >= 5, 1, 0) && writeByte_calls == len(w.statements) + 1 + ite(f.proto >= 3 && f.proto <= 4, 1, 0)
+//@   running writeHeader_calls == 1 && finish_calls == 0 ==> header_is(f, byte(0x0d), streamID) && f.buf[1] == f.flags
+//@   ensures[C03] result == nil ==> header_is(f, byte(0x0d), streamID) && length_is(f) && f.buf[1] == f.flags && (f.flags&0x04 != 0) == (old(f.flags)&0x04 != 0 || len(customPayload) > 0)
+//@   loop 0: invariant 0 <= i && i <= n && n == len(w.statements) && flags == 0 && writeByte_calls == i + 1 && writeShort_calls == i + 1 && writeLongString_calls + writeShortBytes_calls == i
+//@   loop 0: invariant writeHeader_calls == 1 && finish_calls == 0 && writeConsistency_calls == 0 && writeUint_calls == 0 && writeLong_calls == 0 && writeCustomPayload_calls == 1
+//@   loop 0: invariant header_is(f, byte(0x0d), streamID) && f.buf[1] == f.flags
+//@   loop 1: invariant 0 <= i && i < n && n == len(w.statements) && flags == 0 && writeByte_calls == i + 2 && writeShort_calls == i + 2 && writeLongString_calls + writeShortBytes_calls == i + 1
+//@   loop 1: invariant writeHeader_calls == 1 && finish_calls == 0 && writeConsistency_calls == 0 && writeUint_calls == 0 && writeLong_calls == 0 && writeCustomPayload_calls == 1
+//@   loop 1: invariant header_is(f, byte(0x0d), streamID) && f.buf[1] == f.flags
+// every value of a query is written exactly once (the range visits the values in order)
+//@   loop 1: step writeBytes_calls + writeUnset_calls == prev(writeBytes_calls + writeUnset_calls) + 1
+
+//@ func (w *writeBatchFrame) buildFrame
+//@   props C03
+//@   requires framer_ok(framer) && stream_ok(framer, streamID) && batch_ok(w) && payload_ok(w.customPayload) && (len(w.customPayload) > 0 ==> framer.proto >= 4)
+//@   ensures result == nil ==> header_is(framer, byte(0x0d), streamID) && length_is(framer)
 
 // ---------------------------------------------------------------------------
 // frame.go: header and message parsers. Inputs are arbitrary bytes; every
@@ -1746,7 +1934,7 @@ package gocql
 // arrive any more - the frame was never written, or its response has been received; after a timeout,
 // a cancellation or a failed write it stays reserved (recv releases it when the late response arrives).
 //@ func (c *Conn) exec
-//@   props C01 C06 C05 C07
+//@   props C01 C06 C05 C07 C03
 //@   count_calls GetStream addCall releaseStream closeWithError writeContext buildFrame handleTimeout Err
 //@   requires ctx != nil && req != nil && conn_ok(c)
 //@   ensures conn_ok(c)
@@ -1762,6 +1950,12 @@ package gocql
 //@   before[C01] addCall: arg0 == c && GetStream_calls == 1 && GetStream_ret1 && arg1.streamID == GetStream_ret0 && fresh(arg1) && fresh(arg1.resp) && fresh(arg1.timeout)
 //@   before[C01] buildFrame: arg1 == GetStream_ret0 && addCall_calls == 1 && addCall_ret0 == nil
 //@   before[C07] writeContext: same(arg1, framer.buf) && buildFrame_calls == 1 && buildFrame_ret0 == nil
+// C03: the request is built by a framer of the connection's version for the stream the request owns, and what
+// is handed to the socket is that framer's buffer (the frame the builder produced, header and length included).
+// A connection speaks one of the versions 1..5 and its allocator has the id width of that version (dial).
+//@   assume 1 <= c.version && c.version <= 5 && (c.version <= 2 ==> c.streams.NumStreams == 128)
+//@   before[C03] buildFrame: framer_ok(arg0) && stream_ok(arg0, arg1) && arg0.proto == c.version && arg0 == framer && arg1 == call.streamID
+//@   before[C03] buildFrame: (arg0.flags&0x01 != 0) == (c.compressor != nil) && (arg0.flags&0x10 != 0) == (c.version == 5) && arg0.flags&0xec == 0
 //@   before[C01,C06,C07] releaseStream: arg0 == c && arg1 == call && releaseStream_calls == 1 && (writeContext_calls == 0 || (writeContext_ret1 != nil && writeContext_ret0 == 0) || selrecvd(call.resp) == 1)
 //@   before[C06] closeWithError: writeContext_calls == 1 && writeContext_ret1 != nil
 //@   ensures releaseStream_calls <= 1 && GetStream_calls <= 1 && addCall_calls <= 1 && writeContext_calls <= 1
@@ -1866,7 +2060,7 @@ package gocql
 // what a waiter reads after the entry's completion is what the winner's goroutine (prepareStatement$2,
 // proved) left there: a statement whose bind metadata has one column specification per marker, or an error
 //@   ensures_assumed result1 == nil ==> result0 != nil && result0.request.actualColCount == len(result0.request.columns) && result0.request.actualColCount >= 0
-//@   ensures c.session == old(c.session) && c.session.stmtsLRU == old(c.session.stmtsLRU) && c.host == old(c.host) && c.logger == old(c.logger)
+//@   ensures c.session == old(c.session) && c.session.stmtsLRU == old(c.session.stmtsLRU) && c.host == old(c.host) && c.logger == old(c.logger) && c.version == old(c.version) && c.compressor == old(c.compressor) && c.streams == old(c.streams)
 //@   preserves_types Query
 //@   ensures plru_bound(c.session.stmtsLRU)
 
@@ -1922,7 +2116,7 @@ package gocql
 // query is executed again. Paging: a result with more pages carries a follow-up query that is a copy
 // of this one with the received paging state; a last page carries none.
 //@ func (c *Conn) executeQuery
-//@   props C14 C15
+//@   props C14 C15 C03
 //@   count_calls prepareStatement exec evictPreparedID executeQuery marshalQueryValue keyFor
 //@   requires qry != nil && ctx != nil && c.session != nil && c.session.stmtsLRU != nil && c.host != nil && qry.routingInfo != nil && plru_bound(c.session.stmtsLRU) && c.logger != nil && conn_ok(c)
 // tracers, the schema-agreement poll and the user's binding callback have no access to the calls table
@@ -1941,6 +2135,13 @@ package gocql
 //@   before[C15] exec: typeis(arg2, *writeExecuteFrame) && len(old(qry.pageState)) == 0 ==> len(unbox(arg2, *writeExecuteFrame).params.pagingState) == 0
 //@   before[C15] exec: typeis(arg2, *writeQueryFrame) ==> (old(qry.pageSize) > 0 ==> unbox(arg2, *writeQueryFrame).params.pageSize == old(qry.pageSize)) && (old(qry.pageSize) <= 0 ==> unbox(arg2, *writeQueryFrame).params.pageSize == 0) && unbox(arg2, *writeQueryFrame).params.consistency == old(qry.cons)
 //@   before[C15] exec: typeis(arg2, *writeExecuteFrame) ==> (old(qry.pageSize) > 0 ==> unbox(arg2, *writeExecuteFrame).params.pageSize == old(qry.pageSize)) && (old(qry.pageSize) <= 0 ==> unbox(arg2, *writeExecuteFrame).params.pageSize == 0) && unbox(arg2, *writeExecuteFrame).params.consistency == old(qry.cons)
+// C03: the frame object handed to exec carries this query's remaining parameters, and satisfies what the
+// builders need: no per-request keyspace before v5; an unprepared request has no values
+//@   before[C03] exec: typeis(arg2, *writeQueryFrame) ==> len(unbox(arg2, *writeQueryFrame).params.values) == 0 && (c.version <= 4 ==> unbox(arg2, *writeQueryFrame).params.keyspace == "") && (c.version > 4 ==> unbox(arg2, *writeQueryFrame).params.keyspace == old(c.currentKeyspace))
+//@   before[C03] exec: typeis(arg2, *writeQueryFrame) ==> unbox(arg2, *writeQueryFrame).params.serialConsistency == qry.serialCons && unbox(arg2, *writeQueryFrame).params.defaultTimestamp == qry.defaultTimestamp && unbox(arg2, *writeQueryFrame).params.defaultTimestampValue == qry.defaultTimestampValue && unbox(arg2, *writeQueryFrame).customPayload == qry.customPayload && !unbox(arg2, *writeQueryFrame).params.skipMeta
+//@   before[C03] exec: typeis(arg2, *writeExecuteFrame) ==> (c.version <= 4 ==> unbox(arg2, *writeExecuteFrame).params.keyspace == "") && (c.version > 4 ==> unbox(arg2, *writeExecuteFrame).params.keyspace == old(c.currentKeyspace))
+//@   before[C03] exec: typeis(arg2, *writeExecuteFrame) ==> unbox(arg2, *writeExecuteFrame).params.serialConsistency == qry.serialCons && unbox(arg2, *writeExecuteFrame).params.defaultTimestamp == qry.defaultTimestamp && unbox(arg2, *writeExecuteFrame).params.defaultTimestampValue == qry.defaultTimestampValue && unbox(arg2, *writeExecuteFrame).customPayload == qry.customPayload
+//@   before[C03] exec: typeis(arg2, *writeExecuteFrame) ==> unbox(arg2, *writeExecuteFrame).params.skipMeta == !(c.session.cfg.DisableSkipMetadata || qry.disableSkipMetadata)
 //@   before keyFor: same(arg1, c.host.hostId) && same(arg2, c.currentKeyspace) && same(arg3, qry.stmt)
 //@   before evictPreparedID: keyFor_calls >= 1 && same(arg1, keyFor_ret0) && typeis(resp, *RequestErrUnprepared) && same(arg2, unbox(resp, *RequestErrUnprepared).StatementId)
 //@   before executeQuery: evictPreparedID_calls == 1 && arg0 == c && arg2 == qry
@@ -1968,8 +2169,21 @@ package gocql
 // text; its slot in the BATCH frame carries the id PREPARE returned and as many values as the
 // statement has markers (a different number is an error, nothing is sent); entries without arguments
 // are sent as text. UNPREPARED evicts the entry of the statement that id was recorded for.
+// a batch of more than 65535 statements has no encoding (the count is a [short]): it is refused, not sent
+//@ func (b *Batch) Size
+//@   props C03
+//@   modifies nothing
+//@   ensures result == len(b.Entries)
+
+//@ func (s *Session) executeBatch
+//@   props C03
+//@   count_calls executeQuery
+//@   requires batch != nil && s.executor != nil && s.executor.policy != nil && s.executor.pool != nil
+//@   before[C03] executeQuery: len(batch.Entries) <= 65535 && typeis(arg1, *Batch) && unbox(arg1, *Batch) == batch
+//@   ensures executeQuery_calls <= 1
+
 //@ func (c *Conn) executeBatch
-//@   props C14
+//@   props C14 C03
 //@   count_calls prepareStatement exec evictPreparedID executeBatch marshalQueryValue
 //@   requires batch != nil && ctx != nil && c.session != nil && c.session.stmtsLRU != nil && c.host != nil && plru_bound(c.session.stmtsLRU) && conn_ok(c)
 //@   requires forall(k, 0 <= k && k < len(batch.Entries), true)
@@ -1977,17 +2191,22 @@ package gocql
 //@   stable_across evictPreparedID: c.calls
 //@   before prepareStatement: arg0 == c && same(arg2, entry.Stmt)
 //@   before exec: typeis(arg2, *writeBatchFrame) && unbox(arg2, *writeBatchFrame) == req
+// C03: BATCH exists from v2 on (a v1 connection refuses instead of sending); the frame object carries the
+// batch's type, consistency levels, timestamp, payload and one query per entry
+//@   before[C03] exec: c.version != 1 && len(req.statements) == old(len(batch.Entries)) && req.typ == old(batch.Type) && req.consistency == old(batch.Cons) && req.serialConsistency == old(batch.serialCons) && req.defaultTimestamp == old(batch.defaultTimestamp) && req.defaultTimestampValue == old(batch.defaultTimestampValue) && req.customPayload == old(batch.CustomPayload)
 //@   before evictPreparedID: typeis(resp, *RequestErrUnprepared) && same(arg2, unbox(resp, *RequestErrUnprepared).StatementId)
 //@   before executeBatch: arg0 == c && arg2 == batch
 //@   ensures result != nil
 //@   ensures executeBatch_calls == 0 ==> exec_calls <= 1
 //@   loop 0: invariant 0 <= i && i <= n && n == len(batch.Entries) && len(req.statements) == n && req != nil && fresh(req) && stmts != nil && exec_calls == 0 && executeBatch_calls == 0 && evictPreparedID_calls == 0 && plru_bound(c.session.stmtsLRU) && c.session != nil && c.session.stmtsLRU != nil && c.host != nil && conn_ok(c)
 //@   loop 0: invariant forall(k, i <= k && k < n, len(req.statements[k].preparedID) == 0)
+//@   loop 0: invariant n == old(len(batch.Entries)) && req.typ == old(batch.Type) && req.consistency == old(batch.Cons) && req.serialConsistency == old(batch.serialCons) && req.defaultTimestamp == old(batch.defaultTimestamp) && req.defaultTimestampValue == old(batch.defaultTimestampValue) && req.customPayload == old(batch.CustomPayload) && c.version != 1
 // prepared slots processed so far carry an id and as many values as their statement has markers
 //@   loop 0: step prev(prepareStatement_calls) + 1 == prepareStatement_calls ==> prepareStatement_ret1 == nil && same(req.statements[prev(i)].preparedID, prepareStatement_ret0.id) && len(req.statements[prev(i)].values) == prepareStatement_ret0.request.actualColCount
 //@   loop 0: step prev(prepareStatement_calls) == prepareStatement_calls ==> same(req.statements[prev(i)].statement, batch.Entries[prev(i)].Stmt)
 //@   loop 0: step prev(prepareStatement_calls) == prepareStatement_calls ==> len(req.statements[prev(i)].preparedID) == 0
 //@   loop 1: invariant conn_ok(c) && plru_bound(c.session.stmtsLRU) && c.session != nil && c.session.stmtsLRU != nil && c.host != nil
+//@   loop 1: invariant n == old(len(batch.Entries)) && len(req.statements) == n && req.typ == old(batch.Type) && req.consistency == old(batch.Cons) && req.serialConsistency == old(batch.serialCons) && req.defaultTimestamp == old(batch.defaultTimestamp) && req.defaultTimestampValue == old(batch.defaultTimestampValue) && req.customPayload == old(batch.CustomPayload) && c.version != 1
 //@   loop 1: invariant 0 <= j && j <= info.request.actualColCount && len(b.values) == info.request.actualColCount && len(values) == info.request.actualColCount && info.request.actualColCount == len(info.request.columns) && exec_calls == 0 && executeBatch_calls == 0 && evictPreparedID_calls == 0
 
 // ---------------------------------------------------------------------------
